@@ -391,6 +391,8 @@ RULES = [
     Rule("C10.X3", rule_X3, floor=9, doc="colour/character bijection and ASCII plumbing"),
     Rule("C10.X4", rule_X4, floor=12, doc="kind detection table and read-back plumbing"),
     Rule("C10.X5", rule_X5, floor=4, doc="rendering purity"),
+    Rule("C10.X6", lambda ctx: __import__("sa.rules.c13", fromlist=["x"]).neighbour_queries_rule("C10.X6", [], [])(ctx), floor=1,
+         doc="reading a solved maze back from pixels orders the solution by walking get_coord_neighbors: the neighbour queries by bounded abstract evaluation (as C13.V8)"),
 ]
 
 from sa import dims as _dims  # noqa: E402
